@@ -147,7 +147,7 @@ func c19ops(thorough bool) []c19op {
 		}()
 		return f()
 	}
-	datas := []string{"", "x", "h\xc3\xa9\n", rep("abcdefg\n", 70), rep("0123456789", 1100)}
+	datas := []string{"", "x", "h\xc3\xa9\n", rep("abcdefg\n", 70), rep("0123456789", 1100), "\xc0\x80\xe0\x80\x80\xc1\xbf\xe9Z\xed\xa0\x80"} // the last one: over-long forms, a lone 0xE9, a surrogate
 	for _, d := range datas {
 		d := d
 		add(fmt.Sprintf("Write(len %d)", len(d)), func(b bufAPI) string {
@@ -199,7 +199,7 @@ func c19ops(thorough bool) []c19op {
 			return guard(func() string { return fmt.Sprintf("%q", b.Next(n)) })
 		})
 	}
-	for _, d := range []byte{'\n', 'Z'} {
+	for _, d := range []byte{'\n', 'Z', 0xe9, 0x80} {
 		d := d
 		add(fmt.Sprintf("ReadBytes(%q)", d), func(b bufAPI) string {
 			return guard(func() string {
